@@ -10,6 +10,7 @@ Strings are `List Char`; `checksumOf s` is `Engine::new().input(s); checksum_cha
 import MsVerif.Lemmas.ChecksumString
 import MsVerif.Lemmas.ChecksumRun
 import MsVerif.Lemmas.ChecksumBip380
+import MsVerif.Lemmas.ChecksumTripleRun
 import MsVerif.Spec.Bch
 
 namespace MsVerif.C10
@@ -383,14 +384,61 @@ theorem rejected_of_mismatch (t1 t2 : List Char) (hl2 : t2.length = 8)
       exact ⟨.invalidChecksum, by simp [hl2, this]⟩
   · exact ⟨.invalidCharacter, by unfold verifyChecksumL; rw [scanHash_invalid hv]⟩
 
+/-! ## three class-preserving substitutions
+
+A substitution that keeps the character's class (in particular every substitution inside the
+first group: digits, `a`–`h`, descriptor punctuation) changes exactly one 5-bit symbol.  The
+polymod step is GF(32)-linear (`Lemmas/ChecksumGF32.lean`: the generator constants are the
+multiples `2^i·GEN[0]` in GF(2)[x]/(x⁵+x³+1)), so a code word of weight 3,
+`e₁·x^d₁ + e₂·x^d₂ = e₃`, would make the upper seven symbols of `x^d₁ mod g` and `x^d₂ mod g`
+proportional; a kernel-computed table of their projective normal forms for `d = 1 … 1040`
+(`Lemmas/ChecksumTriple*.lean`) shows them pairwise distinct. -/
+
+/-- **three class-preserving substitutions in the body**, the outer two at most 772 characters
+apart, in a string of any length.  `_partial`: what is missing for the in-group clause of the
+property (`checksum_distance_full`, k = 3) is the case where one or two of the three substituted
+characters lie in the checksum part, and the translation into the `Substituted` vocabulary;
+four substitutions (k = 4) are not covered at all. -/
+theorem three_class_preserving_substitutions_detected_partial
+    (pre m1 m2 post cs : List Char) (x x' y y' z z' : Char)
+    (h : checksumOf (pre ++ x :: (m1 ++ y :: (m2 ++ z :: post))) = some cs)
+    (hx' : validChar x' = true) (hy' : validChar y' = true) (hz' : validChar z' = true)
+    (hnx : x ≠ x') (hny : y ≠ y') (hnz : z ≠ z')
+    (hcx : classOf x = classOf x') (hcy : classOf y = classOf y') (hcz : classOf z = classOf z')
+    (hlen : m1.length + m2.length ≤ 770) :
+    ∃ e, verifyChecksumL ((pre ++ x' :: (m1 ++ y' :: (m2 ++ z' :: post))) ++ '#' :: cs) = .err e := by
+  obtain ⟨hl, hv, hn⟩ := checksum_shape _ cs h
+  have hs := allValid_of_checksum h
+  obtain ⟨hpre, h1⟩ := hs.of_append
+  obtain ⟨hx, h2⟩ := h1.of_cons
+  obtain ⟨hm1, h3⟩ := h2.of_append
+  obtain ⟨hy, h4⟩ := h3.of_cons
+  obtain ⟨hm2, h5⟩ := h4.of_append
+  obtain ⟨hz, hpost⟩ := h5.of_cons
+  obtain ⟨c1, c2, e1, e2, hc⟩ := checksum_differs_three hpre hm1 hm2 hpost hx hx' hy hy' hz hz'
+    hnx hny hnz hcx hcy hcz hlen
+  rw [h] at e1; cases e1
+  have hv2 : AllValid (pre ++ x' :: (m1 ++ y' :: (m2 ++ z' :: post))) :=
+    hpre.append (AllValid.cons hx' (hm1.append (AllValid.cons hy' (hm2.append (AllValid.cons hz' hpost)))))
+  rw [verify_split _ cs hv2 hv hn, e2]
+  have : ¬ c2 = cs := fun e => hc e.symm
+  exact ⟨.invalidChecksum, by simp [hl, this]⟩
+
+/-- three hexadecimal digits mistyped -/
+example : ∃ e, verifyChecksumL "raw(d3a7bee0)#89f8spxm".toList = .err e :=
+  three_class_preserving_substitutions_detected_partial "raw(d".toList "a".toList "bee".toList
+    ")".toList "89f8spxm".toList 'e' '3' 'd' '7' 'f' '0' (by decide +kernel) (by decide) (by decide)
+    (by decide) (by decide) (by decide) (by decide) (by decide +kernel) (by decide +kernel)
+    (by decide +kernel) (by decide)
+
 /-! ## T4 — the claim of the property in the specification's vocabulary -/
 
-/-- The complete claim of the property.  OPEN part: `k = 3, 4` inside the first group (3–4 symbol
-errors at arbitrary positions).  It follows from the BCH design distance of the code; a kernel
-proof would need either the field-theoretic BCH bound over GF(1024) or ≈ 2·10⁵ (k = 3) /
-≈ 10⁸ (k = 4) rank computations of the kind used for `k = 2` (≈ 20 ms each in the kernel).
-It is tested on every run by `J csdetect` / `J csdetectagg` (random ≤ 4 first-group
-substitutions). -/
+/-- The complete claim of the property.  OPEN part: `k = 4` inside the first group (4 symbol
+errors at arbitrary positions: pairs of proportionality classes instead of single ones, ≈ 10⁸
+kernel evaluations), and for `k = 3` the distributions with one or two of the substitutions in the
+checksum part (`three_class_preserving_substitutions_detected_partial` has all three in the body).
+The whole in-group clause is tested on every run by `J csdetect` / `J csdetectagg` (random ≤ 4
+first-group substitutions). -/
 def checksum_distance_full : Prop :=
   ∀ (s cs t : List Char) (k : Nat), checksumOf s = some cs → s.length ≤ 500 →
     Spec.Bch.Substituted k (s ++ '#' :: cs) t →
@@ -401,8 +449,8 @@ def checksum_distance_full : Prop :=
 /-- **the `k ≤ 2` part of `checksum_distance_full`, proved** — with the length bound 773 instead
 of 500: in a checksummed string whose body has at most 773 characters, substituting ANY one or
 two characters (body and/or checksum part, by characters of the charset or not), the separator
-left intact, makes `verify_checksum` fail.  Missing for the full statement: `k = 3, 4` inside the
-first group. -/
+left intact, makes `verify_checksum` fail.  Missing for the full statement: the in-group clause
+(`k = 3`: see `three_class_preserving_substitutions_detected_partial`; `k = 4`: open). -/
 theorem checksum_distance_partial (s cs t : List Char) (h : checksumOf s = some cs)
     (hlen : s.length ≤ 773) (hsub : Spec.Bch.Substituted 2 (s ++ '#' :: cs) t)
     (hsep : (s ++ '#' :: cs)[s.length]? = t[s.length]?) :
